@@ -201,6 +201,12 @@ fn main() {
                     std::process::exit(code);
                 }),
             );
+            // large worker stacks: a runaway recursion in the subject must trip the step budget (ticks at every
+            // parser / evaluator entry) long before it can exhaust the stack
+            let _ = rayon::ThreadPoolBuilder::new().stack_size(256 << 20).build_global();
+            if let Ok(path) = std::env::var("VX_ABORT_FILE") {
+                sut::install_fatal_handlers(&path);
+            }
             if let Ok(path) = std::env::var("VX_DUMP_OUTCOMES") {
                 let f = std::fs::File::create(&path).expect("create dump file");
                 let _ = etree::DUMP.set(std::sync::Mutex::new(std::io::BufWriter::new(f)));
